@@ -271,7 +271,7 @@ def direct_trace(enc_mod, seed, nbytes):
     return {'secret': list(secret), 'key': list(secret), 'login': False, 'urandom': [], 'kl': 0, 'blocks': [[0], [0]], 'token': [], 'ev': events_of(log)}
 
 
-def reactor_trace(enc_mod, seed, nbytes, keybits=1024):
+def reactor_trace(enc_mod, seed, nbytes, keybits=1024, conn=None):
     """The cipher exactly as the library installs it: LoginReactor.react on a real Connection whose socket and
     file object are in-memory stand-ins; afterwards the server->client stream is consumed through BOTH
     connection.file_object.read and connection.socket.recv (any split across calls), and the client sends."""
@@ -300,7 +300,9 @@ def reactor_trace(enc_mod, seed, nbytes, keybits=1024):
         def close(self):
             pass
     w = Wire()
-    conn = Connection('h', 25565, username='u', allowed_versions={757})
+    if conn is None:
+        conn = Connection('h', 25565, username='u', allowed_versions={757})
+    # (a Connection object handed in has been through a login before: this is its next one, on a new socket)
     conn.socket, conn.file_object = w, w
     tok = bytes(rng.getrandbits(8) for _ in range(rng.choice([1, 4, 16])))
     pkt = clientbound.login.EncryptionRequestPacket(context=conn.context)
@@ -372,6 +374,15 @@ def run(chk):
         tr['meta'] = {'kind': 'login-reactor wrappers, mixed read/recv', 'seed': chk.seed * 30011 + j}
         chk.case(('reactor', j))
         traces.append(tr)
+    # several logins through one and the same Connection object: each negotiates a secret of its own
+    from minecraft.networking.connection import Connection as _Connection
+    for g in range(2 if quick else 10):
+        shared = _Connection('h', 25565, username='u', allowed_versions={757})
+        for k in range(3):
+            tr = reactor_trace(enc_mod, chk.seed * 40013 + g * 7 + k, 24, keybits=1024, conn=shared)
+            tr['meta'] = {'kind': 'login %d through one Connection object' % (k + 1), 'group': g}
+            chk.case(('relogin', g, k))
+            traces.append(tr)
     total_bytes = sum(len(e['p']) for t in traces for e in t['ev'])
     # shard; the DistinctSecrets assumption needs all login traces together, so each shard carries a stub of every login secret
     shards = 8 if quick else 16
